@@ -2,8 +2,7 @@
 # try_seed.sh <repo dir with the change applied> [tier]: runs every check against that tree (JPV_REPO) and lists the verdicts
 D=$1; T=${2:-quick}
 cd "$(dirname "$0")/.."
-for i in $(seq -w 1 20); do
-  ( out=$(JPV_REPO=$D ./check C$i --tier $T 2>&1); rc=$?; if [ $rc -ne 0 ]; then echo "C$i exit=$rc"; echo "$out" | grep -E "VIOLATION|ANALYSIS-BROKEN|violation" | cut -c1-400 | head -6; fi ) > /tmp/try_seed.$$.C$i &
-done; wait
-cat /tmp/try_seed.$$.C* ; rm -f /tmp/try_seed.$$.C*
+run1() { i=$1; out=$(JPV_REPO=$D ./check C$i --tier $T 2>&1); rc=$?; if [ $rc -ne 0 ]; then echo "C$i exit=$rc"; echo "$out" | grep -E "VIOLATION|ANALYSIS-BROKEN|violation" | cut -c1-300 | head -4; fi; }
+export -f run1; export D T
+seq -w 1 20 | xargs -P5 -I{} bash -c 'run1 {}' 
 echo "-- done ($T)"
